@@ -7,7 +7,8 @@ use crate::ug::build::*;
 use serde_json::{Value, json};
 
 pub const RECEIVERS: [&str; 11] = ["int32", "string", "bool", "S", "E2", "Box[int32]", "Box[string]", "float64", "int8", "uint64", "unit"];
-pub const KINDS: [&str; 8] = ["inherent", "trait-one-impl", "trait-two-impls", "two-traits-same-name", "dyn-containers", "dyn-builtin-containers", "dyn-direct", "coercion-in-receiver"];
+pub const KINDS: [&str; 9] =
+    ["inherent", "trait-one-impl", "trait-two-impls", "two-traits-same-name", "dyn-containers", "dyn-builtin-containers", "dyn-direct", "coercion-in-receiver", "receiver-expression-forms"];
 
 fn rty(name: &str) -> Ty {
     match name {
@@ -116,7 +117,7 @@ pub fn build(kind: &str, recv: &str, other: &str, nargs: usize) -> Option<Progra
             main.push(st(println(E::Inherent(type_head(recv).into(), "m".into(), CallForm::Dot, with(v(x), 1), targs.clone()))));
             main.push(st(println(E::Inherent(type_head(recv).into(), "m".into(), CallForm::Path, with(v(x), 1), targs))));
         }
-        "trait-one-impl" | "trait-two-impls" | "two-traits-same-name" | "dyn-containers" | "dyn-builtin-containers" | "dyn-direct" | "coercion-in-receiver" => {
+        "trait-one-impl" | "trait-two-impls" | "two-traits-same-name" | "dyn-containers" | "dyn-builtin-containers" | "dyn-direct" | "coercion-in-receiver" | "receiver-expression-forms" => {
             items.push(Item::Trait(trait_sig("Tr")));
             items.push(Item::Impl(ImplDef { generics: vec![], trait_name: Some("Tr".into()), for_ty: rty(recv), methods: vec![method_def(&mut n, "m", recv, nargs, "trA")] }));
             if kind != "trait-one-impl" {
@@ -212,6 +213,23 @@ pub fn build(kind: &str, recv: &str, other: &str, nargs: usize) -> Option<Progra
                     main.push(st(println(E::TraitCall("Tr".into(), "m".into(), CallForm::Path, with(call("through", vec![coerced.clone(), v(x)]), 7), rty(recv)))));
                     main.push(st(println(callg("via_bound_path", vec![rty(recv)], with(call("through", vec![coerced, v(x)]), 8)))));
                 }
+                if kind == "receiver-expression-forms" {
+                    // the receiver is not a variable but an expression whose value has the receiver's
+                    // type while a sub-expression (a scrutinee, a variable bound by an arm, a condition)
+                    // has the other implementing type
+                    let (q1, q2, q3, c) = (n.fresh("q"), n.fresh("q"), n.fresh("q"), n.fresh("c"));
+                    main.push(let_t(c, Ty::Bool, E::Bool(true)));
+                    let forms: Vec<E> = vec![
+                        E::Match(Box::new(v(y)), vec![(Pat::Var(q1), v(x))]),
+                        E::If(Box::new(v(c)), Box::new(v(x)), Box::new(v(x))),
+                        E::Match(Box::new(v(c)), vec![(Pat::Bool(true), v(x)), (Pat::Bool(false), v(x))]),
+                        E::Match(Box::new(v(y)), vec![(Pat::Var(q2), E::Match(Box::new(v(x)), vec![(Pat::Var(q3), v(q3))]))]),
+                    ];
+                    for (i, f) in forms.into_iter().enumerate() {
+                        main.push(st(println(E::TraitCall("Tr".into(), "m".into(), CallForm::Path, with(f.clone(), 10 + i as i128), rty(recv)))));
+                        main.push(st(println(callg("via_bound_path", vec![rty(recv)], with(f, 20 + i as i128)))));
+                    }
+                }
                 if kind == "dyn-direct" {
                     // the coerced expression is not a variable but a literal / constructor expression
                     // (generic instances excluded: their literal's type arguments are still open when the
@@ -301,7 +319,7 @@ impl Family for Methods {
         &["C17", "C01", "C02", "C03", "C04"]
     }
     fn rule(&self) -> &'static str {
-        "receiver types {int32,string,bool,S,E2,Box[int32],Box[string],float64,int8,uint64,unit} x 0-2 extra arguments x {inherent, trait with one impl, trait with impls for two receiver types, two traits with the same method name, dyn values through a destructured tuple, a struct field and an enum payload, a literal / constructor expression coerced to dyn directly, a path-form call whose receiver is a call with a dyn-coerced argument, dyn values read back through array_get/vec_get (may be rejected: inference limitation, tagged)}; each program calls every applicable form (x.m(a), T::m(x,a), Tr::m(x,a), through a T: Tr bound in dot and path form, Tr::m(d,a) on the value coerced to dyn Tr) and prints each result; 12 + 30 negative programs (one method name defined by two inherent impls applying to the same receiver (generic + exact instance, two blocks); dyn coercion without impl, ambiguous method under two bounds/traits, unsatisfied bound, unknown method, standalone method value; the same method name in two traits at every pair of arities 0..2 called in dot form through two bounds and on a concrete receiver with every fitting argument count) that must be rejected with a diagnostic. non-trivial = programs with >= 2 impls; distinct = distinct source text"
+        "receiver types {int32,string,bool,S,E2,Box[int32],Box[string],float64,int8,uint64,unit} x 0-2 extra arguments x {inherent, trait with one impl, trait with impls for two receiver types, two traits with the same method name, dyn values through a destructured tuple, a struct field and an enum payload, a literal / constructor expression coerced to dyn directly, a path-form call whose receiver is a call with a dyn-coerced argument, a path-form call whose receiver is a match / if expression with a scrutinee or arm variable of the other implementing type, dyn values read back through array_get/vec_get (may be rejected: inference limitation, tagged)}; each program calls every applicable form (x.m(a), T::m(x,a), Tr::m(x,a), through a T: Tr bound in dot and path form, Tr::m(d,a) on the value coerced to dyn Tr) and prints each result; 12 + 30 negative programs (one method name defined by two inherent impls applying to the same receiver (generic + exact instance, two blocks); dyn coercion without impl, ambiguous method under two bounds/traits, unsatisfied bound, unknown method, standalone method value; the same method name in two traits at every pair of arities 0..2 called in dot form through two bounds and on a concrete receiver with every fitting argument count) that must be rejected with a diagnostic. non-trivial = programs with >= 2 impls; distinct = distinct source text"
     }
     fn cases(&self, _tier: Tier) -> Box<dyn Iterator<Item = Value> + '_> {
         let mut v = Vec::new();
